@@ -21,7 +21,8 @@ CALL_CONTRACTS = {}  # "module:qualname" -> callable(it, fv, args, kwargs): modu
 
 
 class ContractDef:
-    def __init__(self, name, props, functions, fn, replay=None, doc=""):
+    def __init__(self, name, props, functions, fn, replay=None, doc="", tier="quick"):
+        self.tier = tier  # "quick": every run; "thorough": only in the thorough tier (slow solver work)
         self.name = name
         self.props = tuple(props)
         self.functions = tuple(functions)
@@ -30,9 +31,9 @@ class ContractDef:
         self.doc = doc or (fn.__doc__ or "").strip()
 
 
-def contract(name, props, functions, replay=None):
+def contract(name, props, functions, replay=None, tier="quick"):
     def deco(fn):
-        REGISTRY[name] = ContractDef(name, props, functions, fn, replay)
+        REGISTRY[name] = ContractDef(name, props, functions, fn, replay, tier=tier)
         return fn
 
     return deco
@@ -58,6 +59,10 @@ class Ctx:
         self.assumed = set()
         self.carveout_fns = list(carveouts)
         self.extra_obligations = []
+        self.flags = {}
+        for f in self.carveout_fns:  # carve-outs that work by switching a library assumption
+            if getattr(f, "flag", None):
+                self.flags[f.flag] = True
 
     # ---- symbolic inputs
     def int(self, name):
@@ -96,6 +101,8 @@ class Ctx:
     def all_premises(self):
         out = list(self.premises)
         for f in self.carveout_fns:
+            if getattr(f, "flag", None):
+                continue
             out.append(z3.Not(f(self)))
         return out
 
@@ -105,6 +112,7 @@ class Ctx:
         prem = self.all_premises()
 
         def run2(it):
+            it.flags = self.flags
             for p in prem:
                 it.assume(p)
             return run(it)
